@@ -139,7 +139,7 @@ def any_module_oracle(rng, n):
                           "replay": {"estimator": which, "module": kind, "rhos": rhos}})
             continue
         if which == "DeepSup":
-            y = np.array([rng.randrange(rng.choice([1, 2, 3])) for _ in range(len(X))])
+            y = zoo.ydt(rng, [rng.randrange(rng.choice([1, 2, 3])) for _ in range(len(X))])
         rep = {"estimator": which, "module": kind, "params": {k: (np.asarray(v).tolist() if isinstance(v, np.ndarray) else v) for k, v in base.items()},
                "rhos": rhos, "mode": mode, "eps": eps, "X": X.tolist(), "y": None if y is None else y.tolist()}
         nb = rng.choice([1, 1, 2, 3])
